@@ -404,6 +404,42 @@ pub fn decode_n_notime(st: &State, t: &mut Toks) -> PResult<String> {
     decode_n_on(st, t, true)
 }
 
+/// SE2 <history A> <wscript A> <history B>: two messages written to two streams by two futures of one thread; stream A takes what its
+/// script says (and may stall for a long time), stream B takes everything at once.  Output: both SE observations and the (virtual)
+/// millisecond at which B's encode returned - a stalled stream is its own business.
+pub fn encode_two(st: &State, t: &mut Toks) -> PResult<String> {
+    let ma = match build_history_pub(st, t)? { Ok(m) => m, Err(l) => return Ok(format!("SE2 build-failed {}", l)) };
+    let wa = parse_wscript(t)?;
+    let mb = match build_history_pub(st, t)? { Ok(m) => m, Err(l) => return Ok(format!("SE2 build-failed {}", l)) };
+    let sha = Arc::new(Mutex::new(Shared::default()));
+    let shb = Arc::new(Mutex::new(Shared::default()));
+    let mut a = ScriptStream::new(VecDeque::new(), wa, Arc::clone(&sha));
+    let mut b = ScriptStream::new(VecDeque::new(), VecDeque::new(), Arc::clone(&shb));
+    let res = run_to_end(async move {
+        let t0 = tokio::time::Instant::now();
+        let fa = async { Codec::encode(&mut a, &ma).await.is_ok() };
+        let fb = async {
+            tokio::task::yield_now().await;
+            let ok = Codec::encode(&mut b, &mb).await.is_ok();
+            (ok, t0.elapsed().as_millis())
+        };
+        tokio::join!(fa, fb)
+    });
+    let mut o = String::from("SE2 ");
+    match res {
+        Ok(Some((oka, (okb, at)))) => {
+            let _ = write!(o, "A {} ", if oka { "ok" } else { "err" });
+            hex(&mut o, &sha.lock().unwrap().received);
+            let _ = write!(o, " B {} ", if okb { "ok" } else { "err" });
+            hex(&mut o, &shb.lock().unwrap().received);
+            let _ = write!(o, " B@{}", at);
+        }
+        Ok(None) => o.push_str("HANG"),
+        Err(p) => { let _ = write!(o, "PANIC {}", p.replace('\n', " ")); }
+    }
+    Ok(o)
+}
+
 /// SD2 <dict> <k1> <rscript1> <k2> <rscript2>: two streams decoded side by side by two futures of ONE thread (`join!`): wherever
 /// one of them is not ready, the other goes on.  Output: the two SD observations, separated by " || ".
 pub fn decode_two(st: &State, t: &mut Toks) -> PResult<String> {
